@@ -37,7 +37,10 @@ theorem prV3Connack_inv {a P c} (h : Inv0 a P c) (pp : Except Nat Pkt) : Inv a P
   split
   · exact (handleV3Error_inv0 h _).inv
   split
-  · (repeat' split) <;> exact Inv.push (by frame_inv h.inv) _ rfl
+  · (repeat' split) <;>
+      first
+      | exact Inv.push (by frame_inv h.inv) _ rfl
+      | exact Inv.push (resendStored_inv (by frame_inv h.inv) (by simp)) _ rfl
   · exact (handleV3Error_inv0 h _).inv
 
 @[simp] theorem connackRecvProp_tv (c : C) (id v : Nat) :
@@ -83,7 +86,9 @@ theorem prV5Connack_inv {a P c} (h : Inv0 a P c) (pp : Except Nat Pkt) : Inv a P
     · simp only [hr, if_true]
       obtain ⟨h1, h2, h3⟩ := propsFold_connackRecvProp_inv (a := a) (P := P)
         (c := { c with s := { c.s with status := .connected } }) (by frame_inv h.inv) (by simp) p.props
-      split <;> exact Inv.push (by frame_inv h1) _ rfl
+      split
+      · exact Inv.push (resendStored_inv h1 (by rw [h2]; simp)) _ rfl
+      · exact Inv.push (by frame_inv h1) _ rfl
     · simp only [hr, if_false]; exact h.inv.push _ rfl
   · exact (h.err _).inv
 
